@@ -67,7 +67,10 @@ def callbacks_in_integrate(reg, src, n=2):
                                     dt_field=o["_OdeSystem__dt"], final=st.env.get("is_final_step"), tf=st.env["tf"])
             ts = kwargs.get("timestep")
             # the step handed to the integrator is the stored dt (set by the previous callback / controller), or the final clamp
-            ex.prove(st, ctx, z3.Or(ts == o["_OdeSystem__dt"], z3.And(z3.BoolVal(True) if st.env.get("is_final_step") is True else z3.BoolVal(False), ts == st.env["tf"] - st.ghost["iter"]["t"])),
+            dtf = o["_OdeSystem__dt"]
+            absz = lambda x: z3.If(x >= 0, x, -x)
+            # ... the clamp onto the target only ever *shortens* the stored step (a step longer than the one a callback assigned is never taken)
+            ex.prove(st, ctx, z3.Or(ts == dtf, z3.And(z3.BoolVal(True) if st.env.get("is_final_step") is True else z3.BoolVal(False), ts == st.env["tf"] - st.ghost["iter"]["t"], absz(ts) <= absz(dtf))),
                      "post", "timestep-is-stored-dt-or-final-clamp")
             out = orig_apply(c, args, kwargs, st, ctx, node)
             for s2, v in out:
